@@ -300,6 +300,26 @@ func (c *Ctx) ruleAckResolution(prefix string) {
 						}
 					}
 					if !swept {
+						// the resolver may be the sweep's per-key helper: then every call site hands it a key that the
+						// timeout list returned
+						sites := c.P.StaticCallers(f)
+						swept = len(sites) > 0
+						for _, site := range sites {
+							fromSweep := false
+							for _, a := range site.Common().Args {
+								if depReaches(a, func(v ssa.Value) bool {
+									cv, ok := v.(*ssa.Call)
+									return ok && core.CallOf(cv).Is(h.listExpire)
+								}) {
+									fromSweep = true
+								}
+							}
+							if !fromSweep {
+								swept = false
+							}
+						}
+					}
+					if !swept {
 						bad, at = "an entry is resolved as expired outside the expiry sweep", pc.Instr
 					}
 					continue
@@ -521,6 +541,7 @@ func checkC04(c *Ctx) {
 			key := fmt.Sprintf("key of Hash.%s #%d in %s", cl.Obj.Name(), n, c.fname(f))
 			var kf *ssa.Function
 			var kcall *ssa.Call
+			sweepKeys := false
 			depReaches(karg, func(v ssa.Value) bool {
 				if cv, ok := v.(*ssa.Call); ok {
 					if sc := cv.Call.StaticCallee(); sc != nil && sc.Package() == h.ackPkg {
@@ -540,6 +561,10 @@ func checkC04(c *Ctx) {
 						found := false
 						depReaches(a, func(v ssa.Value) bool {
 							if cv, ok := v.(*ssa.Call); ok {
+								if core.CallOf(cv).Is(h.listExpire) {
+									found, sweepKeys = true, true // the sweep's per-key helper: keys come back from the timeout list
+									return true
+								}
 								if sc := cv.Call.StaticCallee(); sc != nil && sc.Package() == h.ackPkg {
 									kf, kcall = sc, cv
 									found = true
@@ -556,6 +581,9 @@ func checkC04(c *Ctx) {
 						kf = nil
 					}
 				}
+			}
+			if kf == nil && sweepKeys {
+				continue // like the sweep itself: the key was computed at registration
 			}
 			if kf == nil {
 				ru6.Fail(key, c.whereI(cl.Instr), "the key is not computed by the package's key function")
